@@ -2,7 +2,7 @@ package rules
 
 func init() {
 	reg("C06", &PropSpec{
-		Rules:       []Rule{r("R1", RuleR1), r("R2", RuleR2), r("R2c", RuleR2c), r("R3", RuleR3), r("R4", RuleR4), r("R5", RuleR5), r("N1", RuleN1), r("X1", RuleX1), r("AT1", RuleAT1)},
+		Rules:       []Rule{r("R1", RuleR1), r("R2", RuleR2), r("R2c", RuleR2c), r("R3", RuleR3), r("R4", RuleR4), r("R5", RuleR5), r("N1", RuleN1), r("X1", RuleX1), r("AT1", RuleAT1), r("R2w", RuleR2w), r("R6", RuleR6), r("RT1", RuleRT1)},
 		Explanation: "The walk over the runtime tree is not decided statically. Decided: one function links directives to parents, every Parent store / AppendChild / root-list insert is in it and both tree-building phases call it, so pasted directives are nested by the same resolution as written ones (R1); the parenthesis protocol is wired end to end - '(' handler sets the flag, ')' handler reaches the walk that stops at it, the scan stage cannot succeed while an explicit context is open (R2); every test inside the outward walk reads the current candidate context, none is computed once before the walk (R3); '(' and ')' with no directive are diagnostics, not crashes (N1); the lexeme dispatch lists every lexeme type (X1). Not decided: that the loop picks the nearest admitting ancestor and stops at an explicit boundary; correctness of the admissibility table. The `)` handler succeeds only after a flagged context was found (R2c); Parent and Children agree at every exit of the resolver family (R4); outside it the current context only moves outwards (R5). Kinds of one class (the HTTP methods) admit the same children in the allowed-children table (AT1). Every step outwards of the current context is taken with the HasExplicitContext flag in view (R5 boundary).",
 		Trusted:     trustedCommon,
 	})
